@@ -12,6 +12,7 @@ EXPLANATION = (
     "definition transcribed in rules/convrefs.py (CIE 15 xyY / L*a*b* / L*u*v* and polar forms, hexcone HSV/HSL/HWB, Oklab matrices, "
     "transfer functions); Rgb->Hsv/Hsl (scalar and mask-generic arms) are compared with the hexcone model on each of the 26 sign/ordering regions of (r,g,b); literal tables (matrices, white points, knee constants) are checked by exact/decimal arithmetic against the "
     "standards' values. Not decided: accuracy of powf/cbrt/atan2 and tolerance over the gamut."
+    " OK-REF: the Oklab <-> Okhsl / Okhsv bodies against Ottosson's algorithm (helpers uninterpreted, end-point shortcuts included). ALIAS: the named-standard aliases resolve to the standard their name says."
 )
 
 
